@@ -1,10 +1,11 @@
-/* LD_PRELOAD crash shim for the C09 check.
+/* LD_PRELOAD crash / fault shim for the C09 and C10 checks.
    Numbers the file-system MUTATING libc calls that touch a path below $SY_CRASH_ROOT, appends one line per such
    call to $SY_CRASH_LOG *before* performing it ("k<TAB>name<TAB>path[<TAB>path2]"), and when the number reaches
    $SY_CRASH_AT calls _exit(137) INSTEAD of performing the call: the process dies at the boundary just before
    its k-th mutating call (no destructors, no atexit handlers, no buffered output flushed -- as after SIGKILL). */
 #define _GNU_SOURCE
 #include <dlfcn.h>
+#include <errno.h>
 #include <fcntl.h>
 #include <limits.h>
 #include <stdarg.h>
@@ -19,6 +20,9 @@
 
 static long counter = 0;
 static long crash_at = -1;
+static long fail_at = -1;
+static long fail_at2 = -1;
+static int fail_errno = 5;
 static int log_fd = -2;
 static char root[PATH_MAX];
 static size_t root_len = 0;
@@ -31,6 +35,11 @@ static void init(void) {
     if (r) { strncpy(root, r, sizeof root - 1); root_len = strlen(root); }
     const char *a = getenv("SY_CRASH_AT");
     crash_at = a ? atol(a) : 0;
+    const char *fa = getenv("SY_FAIL_AT");
+    fail_at = fa ? atol(fa) : 0;
+    { const char *c = fa ? strchr(fa, ',') : NULL; fail_at2 = c ? atol(c + 1) : 0; }   /* SY_FAIL_AT=k1,k2: two faults */
+    const char *fe = getenv("SY_FAIL_ERRNO");
+    fail_errno = fe ? atoi(fe) : EIO;
     const char *l = getenv("SY_CRASH_LOG");
     log_fd = l ? (int)syscall(SYS_openat, AT_FDCWD, l, O_WRONLY | O_CREAT | O_APPEND | O_CLOEXEC, 0644) : -1;
 }
@@ -59,11 +68,12 @@ static const char *at_path(int dirfd, const char *p, char *buf) {
     return buf;
 }
 
-/* called before a mutating call on path p (and q); dies here when this is call number crash_at */
-static void hit(const char *name, const char *p, const char *q) {
+/* called before a mutating call on path p (and q); dies here when this is call number crash_at; returns 1 when this is call
+   number $SY_FAIL_AT: the caller then fails with errno $SY_FAIL_ERRNO INSTEAD of performing the call */
+static int hit(const char *name, const char *p, const char *q) {
     init();
     int u = under_root(p) || under_root(q);
-    if (!u) return;
+    if (!u) return 0;
     long k = __atomic_add_fetch(&counter, 1, __ATOMIC_SEQ_CST);
     if (log_fd >= 0) {
         char line[2 * PATH_MAX + 128];
@@ -74,6 +84,12 @@ static void hit(const char *name, const char *p, const char *q) {
         if (log_fd >= 0) syscall(SYS_write, log_fd, "KILLED\n", 7);
         syscall(SYS_exit_group, 137);
     }
+    if ((fail_at > 0 && k == fail_at) || (fail_at2 > 0 && k == fail_at2)) {
+        if (log_fd >= 0) syscall(SYS_write, log_fd, "FAILED\n", 7);
+        errno = fail_errno;
+        return 1;
+    }
+    return 0;
 }
 
 #define REAL(name) static __typeof__(name) *real = NULL; if (!real) real = (__typeof__(name) *)dlsym(RTLD_NEXT, #name)
@@ -82,65 +98,65 @@ static int wants_write(int flags) { return (flags & (O_WRONLY | O_RDWR | O_CREAT
 
 int open(const char *p, int flags, ...) {
     REAL(open); mode_t m = 0; if (flags & (O_CREAT | O_TMPFILE)) { va_list ap; va_start(ap, flags); m = va_arg(ap, mode_t); va_end(ap); }
-    char b[PATH_MAX]; if (wants_write(flags)) hit((flags & O_TRUNC) ? "open-trunc" : "open-write", at_path(AT_FDCWD, p, b), NULL);
+    char b[PATH_MAX]; if (wants_write(flags)) if (hit((flags & O_TRUNC) ? "open-trunc" : "open-write", at_path(AT_FDCWD, p, b), NULL)) return -1;
     return real(p, flags, m);
 }
 int open64(const char *p, int flags, ...) {
     REAL(open64); mode_t m = 0; if (flags & (O_CREAT | O_TMPFILE)) { va_list ap; va_start(ap, flags); m = va_arg(ap, mode_t); va_end(ap); }
-    char b[PATH_MAX]; if (wants_write(flags)) hit((flags & O_TRUNC) ? "open-trunc" : "open-write", at_path(AT_FDCWD, p, b), NULL);
+    char b[PATH_MAX]; if (wants_write(flags)) if (hit((flags & O_TRUNC) ? "open-trunc" : "open-write", at_path(AT_FDCWD, p, b), NULL)) return -1;
     return real(p, flags, m);
 }
 int openat(int d, const char *p, int flags, ...) {
     REAL(openat); mode_t m = 0; if (flags & (O_CREAT | O_TMPFILE)) { va_list ap; va_start(ap, flags); m = va_arg(ap, mode_t); va_end(ap); }
-    char b[PATH_MAX]; if (wants_write(flags)) hit((flags & O_TRUNC) ? "open-trunc" : "open-write", at_path(d, p, b), NULL);
+    char b[PATH_MAX]; if (wants_write(flags)) if (hit((flags & O_TRUNC) ? "open-trunc" : "open-write", at_path(d, p, b), NULL)) return -1;
     return real(d, p, flags, m);
 }
 int openat64(int d, const char *p, int flags, ...) {
     REAL(openat64); mode_t m = 0; if (flags & (O_CREAT | O_TMPFILE)) { va_list ap; va_start(ap, flags); m = va_arg(ap, mode_t); va_end(ap); }
-    char b[PATH_MAX]; if (wants_write(flags)) hit((flags & O_TRUNC) ? "open-trunc" : "open-write", at_path(d, p, b), NULL);
+    char b[PATH_MAX]; if (wants_write(flags)) if (hit((flags & O_TRUNC) ? "open-trunc" : "open-write", at_path(d, p, b), NULL)) return -1;
     return real(d, p, flags, m);
 }
-int creat(const char *p, mode_t m) { REAL(creat); char b[PATH_MAX]; hit("open-trunc", at_path(AT_FDCWD, p, b), NULL); return real(p, m); }
-int creat64(const char *p, mode_t m) { REAL(creat64); char b[PATH_MAX]; hit("open-trunc", at_path(AT_FDCWD, p, b), NULL); return real(p, m); }
+int creat(const char *p, mode_t m) { REAL(creat); char b[PATH_MAX]; if (hit("open-trunc", at_path(AT_FDCWD, p, b), NULL)) return -1; return real(p, m); }
+int creat64(const char *p, mode_t m) { REAL(creat64); char b[PATH_MAX]; if (hit("open-trunc", at_path(AT_FDCWD, p, b), NULL)) return -1; return real(p, m); }
 
-int rename(const char *a, const char *b2) { REAL(rename); char b[PATH_MAX], c[PATH_MAX]; hit("rename", at_path(AT_FDCWD, a, b), at_path(AT_FDCWD, b2, c)); return real(a, b2); }
-int renameat(int d1, const char *a, int d2, const char *b2) { REAL(renameat); char b[PATH_MAX], c[PATH_MAX]; hit("rename", at_path(d1, a, b), at_path(d2, b2, c)); return real(d1, a, d2, b2); }
-int renameat2(int d1, const char *a, int d2, const char *b2, unsigned int f) { REAL(renameat2); char b[PATH_MAX], c[PATH_MAX]; hit("rename", at_path(d1, a, b), at_path(d2, b2, c)); return real(d1, a, d2, b2, f); }
-int unlink(const char *p) { REAL(unlink); char b[PATH_MAX]; hit("unlink", at_path(AT_FDCWD, p, b), NULL); return real(p); }
-int unlinkat(int d, const char *p, int f) { REAL(unlinkat); char b[PATH_MAX]; hit((f & AT_REMOVEDIR) ? "rmdir" : "unlink", at_path(d, p, b), NULL); return real(d, p, f); }
-int rmdir(const char *p) { REAL(rmdir); char b[PATH_MAX]; hit("rmdir", at_path(AT_FDCWD, p, b), NULL); return real(p); }
-int mkdir(const char *p, mode_t m) { REAL(mkdir); char b[PATH_MAX]; hit("mkdir", at_path(AT_FDCWD, p, b), NULL); return real(p, m); }
-int mkdirat(int d, const char *p, mode_t m) { REAL(mkdirat); char b[PATH_MAX]; hit("mkdir", at_path(d, p, b), NULL); return real(d, p, m); }
-int truncate(const char *p, off_t l) { REAL(truncate); char b[PATH_MAX]; hit("truncate", at_path(AT_FDCWD, p, b), NULL); return real(p, l); }
-int truncate64(const char *p, off64_t l) { REAL(truncate64); char b[PATH_MAX]; hit("truncate", at_path(AT_FDCWD, p, b), NULL); return real(p, l); }
-int ftruncate(int fd, off_t l) { REAL(ftruncate); char b[PATH_MAX]; hit("truncate", fd_path(fd, b), NULL); return real(fd, l); }
-int ftruncate64(int fd, off64_t l) { REAL(ftruncate64); char b[PATH_MAX]; hit("truncate", fd_path(fd, b), NULL); return real(fd, l); }
-int fallocate(int fd, int mode, off_t o, off_t l) { REAL(fallocate); char b[PATH_MAX]; hit("truncate", fd_path(fd, b), NULL); return real(fd, mode, o, l); }
-int posix_fallocate(int fd, off_t o, off_t l) { REAL(posix_fallocate); char b[PATH_MAX]; hit("truncate", fd_path(fd, b), NULL); return real(fd, o, l); }
+int rename(const char *a, const char *b2) { REAL(rename); char b[PATH_MAX], c[PATH_MAX]; if (hit("rename", at_path(AT_FDCWD, a, b), at_path(AT_FDCWD, b2, c))) return -1; return real(a, b2); }
+int renameat(int d1, const char *a, int d2, const char *b2) { REAL(renameat); char b[PATH_MAX], c[PATH_MAX]; if (hit("rename", at_path(d1, a, b), at_path(d2, b2, c))) return -1; return real(d1, a, d2, b2); }
+int renameat2(int d1, const char *a, int d2, const char *b2, unsigned int f) { REAL(renameat2); char b[PATH_MAX], c[PATH_MAX]; if (hit("rename", at_path(d1, a, b), at_path(d2, b2, c))) return -1; return real(d1, a, d2, b2, f); }
+int unlink(const char *p) { REAL(unlink); char b[PATH_MAX]; if (hit("unlink", at_path(AT_FDCWD, p, b), NULL)) return -1; return real(p); }
+int unlinkat(int d, const char *p, int f) { REAL(unlinkat); char b[PATH_MAX]; if (hit((f & AT_REMOVEDIR) ? "rmdir" : "unlink", at_path(d, p, b), NULL)) return -1; return real(d, p, f); }
+int rmdir(const char *p) { REAL(rmdir); char b[PATH_MAX]; if (hit("rmdir", at_path(AT_FDCWD, p, b), NULL)) return -1; return real(p); }
+int mkdir(const char *p, mode_t m) { REAL(mkdir); char b[PATH_MAX]; if (hit("mkdir", at_path(AT_FDCWD, p, b), NULL)) return -1; return real(p, m); }
+int mkdirat(int d, const char *p, mode_t m) { REAL(mkdirat); char b[PATH_MAX]; if (hit("mkdir", at_path(d, p, b), NULL)) return -1; return real(d, p, m); }
+int truncate(const char *p, off_t l) { REAL(truncate); char b[PATH_MAX]; if (hit("truncate", at_path(AT_FDCWD, p, b), NULL)) return -1; return real(p, l); }
+int truncate64(const char *p, off64_t l) { REAL(truncate64); char b[PATH_MAX]; if (hit("truncate", at_path(AT_FDCWD, p, b), NULL)) return -1; return real(p, l); }
+int ftruncate(int fd, off_t l) { REAL(ftruncate); char b[PATH_MAX]; if (hit("truncate", fd_path(fd, b), NULL)) return -1; return real(fd, l); }
+int ftruncate64(int fd, off64_t l) { REAL(ftruncate64); char b[PATH_MAX]; if (hit("truncate", fd_path(fd, b), NULL)) return -1; return real(fd, l); }
+int fallocate(int fd, int mode, off_t o, off_t l) { REAL(fallocate); char b[PATH_MAX]; if (hit("truncate", fd_path(fd, b), NULL)) return -1; return real(fd, mode, o, l); }
+int posix_fallocate(int fd, off_t o, off_t l) { REAL(posix_fallocate); char b[PATH_MAX]; if (hit("truncate", fd_path(fd, b), NULL)) return -1; return real(fd, o, l); }
 int utimensat(int d, const char *p, const struct timespec t[2], int f) {
-    REAL(utimensat); char b[PATH_MAX]; hit("utime", p ? at_path(d, p, b) : fd_path(d, b), NULL); return real(d, p, t, f);
+    REAL(utimensat); char b[PATH_MAX]; if (hit("utime", p ? at_path(d, p, b) : fd_path(d, b), NULL)) return -1; return real(d, p, t, f);
 }
-int futimens(int fd, const struct timespec t[2]) { REAL(futimens); char b[PATH_MAX]; hit("utime", fd_path(fd, b), NULL); return real(fd, t); }
+int futimens(int fd, const struct timespec t[2]) { REAL(futimens); char b[PATH_MAX]; if (hit("utime", fd_path(fd, b), NULL)) return -1; return real(fd, t); }
 struct timeval; struct utimbuf;
-int utimes(const char *p, const struct timeval t[2]) { static int (*real)(const char *, const struct timeval *) = NULL; if (!real) real = dlsym(RTLD_NEXT, "utimes"); char b[PATH_MAX]; hit("utime", at_path(AT_FDCWD, p, b), NULL); return real(p, t); }
-int link(const char *a, const char *b2) { REAL(link); char b[PATH_MAX], c[PATH_MAX]; hit("link", at_path(AT_FDCWD, b2, c), at_path(AT_FDCWD, a, b)); return real(a, b2); }
-int linkat(int d1, const char *a, int d2, const char *b2, int f) { REAL(linkat); char b[PATH_MAX], c[PATH_MAX]; hit("link", at_path(d2, b2, c), at_path(d1, a, b)); return real(d1, a, d2, b2, f); }
-int symlink(const char *t, const char *p) { REAL(symlink); char b[PATH_MAX]; hit("symlink", at_path(AT_FDCWD, p, b), NULL); return real(t, p); }
-int symlinkat(const char *t, int d, const char *p) { REAL(symlinkat); char b[PATH_MAX]; hit("symlink", at_path(d, p, b), NULL); return real(t, d, p); }
-int chmod(const char *p, mode_t m) { REAL(chmod); char b[PATH_MAX]; hit("chmod", at_path(AT_FDCWD, p, b), NULL); return real(p, m); }
-int fchmod(int fd, mode_t m) { REAL(fchmod); char b[PATH_MAX]; hit("chmod", fd_path(fd, b), NULL); return real(fd, m); }
-int fchmodat(int d, const char *p, mode_t m, int f) { REAL(fchmodat); char b[PATH_MAX]; hit("chmod", at_path(d, p, b), NULL); return real(d, p, m, f); }
-int setxattr(const char *p, const char *n, const void *v, size_t s, int f) { REAL(setxattr); char b[PATH_MAX]; hit("xattr", at_path(AT_FDCWD, p, b), NULL); return real(p, n, v, s, f); }
-int lsetxattr(const char *p, const char *n, const void *v, size_t s, int f) { REAL(lsetxattr); char b[PATH_MAX]; hit("xattr", at_path(AT_FDCWD, p, b), NULL); return real(p, n, v, s, f); }
-int fsetxattr(int fd, const char *n, const void *v, size_t s, int f) { REAL(fsetxattr); char b[PATH_MAX]; hit("xattr", fd_path(fd, b), NULL); return real(fd, n, v, s, f); }
-int removexattr(const char *p, const char *n) { REAL(removexattr); char b[PATH_MAX]; hit("xattr", at_path(AT_FDCWD, p, b), NULL); return real(p, n); }
-int lremovexattr(const char *p, const char *n) { REAL(lremovexattr); char b[PATH_MAX]; hit("xattr", at_path(AT_FDCWD, p, b), NULL); return real(p, n); }
-int fremovexattr(int fd, const char *n) { REAL(fremovexattr); char b[PATH_MAX]; hit("xattr", fd_path(fd, b), NULL); return real(fd, n); }
+int utimes(const char *p, const struct timeval t[2]) { static int (*real)(const char *, const struct timeval *) = NULL; if (!real) real = dlsym(RTLD_NEXT, "utimes"); char b[PATH_MAX]; if (hit("utime", at_path(AT_FDCWD, p, b), NULL)) return -1; return real(p, t); }
+int link(const char *a, const char *b2) { REAL(link); char b[PATH_MAX], c[PATH_MAX]; if (hit("link", at_path(AT_FDCWD, b2, c), at_path(AT_FDCWD, a, b))) return -1; return real(a, b2); }
+int linkat(int d1, const char *a, int d2, const char *b2, int f) { REAL(linkat); char b[PATH_MAX], c[PATH_MAX]; if (hit("link", at_path(d2, b2, c), at_path(d1, a, b))) return -1; return real(d1, a, d2, b2, f); }
+int symlink(const char *t, const char *p) { REAL(symlink); char b[PATH_MAX]; if (hit("symlink", at_path(AT_FDCWD, p, b), NULL)) return -1; return real(t, p); }
+int symlinkat(const char *t, int d, const char *p) { REAL(symlinkat); char b[PATH_MAX]; if (hit("symlink", at_path(d, p, b), NULL)) return -1; return real(t, d, p); }
+int chmod(const char *p, mode_t m) { REAL(chmod); char b[PATH_MAX]; if (hit("chmod", at_path(AT_FDCWD, p, b), NULL)) return -1; return real(p, m); }
+int fchmod(int fd, mode_t m) { REAL(fchmod); char b[PATH_MAX]; if (hit("chmod", fd_path(fd, b), NULL)) return -1; return real(fd, m); }
+int fchmodat(int d, const char *p, mode_t m, int f) { REAL(fchmodat); char b[PATH_MAX]; if (hit("chmod", at_path(d, p, b), NULL)) return -1; return real(d, p, m, f); }
+int setxattr(const char *p, const char *n, const void *v, size_t s, int f) { REAL(setxattr); char b[PATH_MAX]; if (hit("xattr", at_path(AT_FDCWD, p, b), NULL)) return -1; return real(p, n, v, s, f); }
+int lsetxattr(const char *p, const char *n, const void *v, size_t s, int f) { REAL(lsetxattr); char b[PATH_MAX]; if (hit("xattr", at_path(AT_FDCWD, p, b), NULL)) return -1; return real(p, n, v, s, f); }
+int fsetxattr(int fd, const char *n, const void *v, size_t s, int f) { REAL(fsetxattr); char b[PATH_MAX]; if (hit("xattr", fd_path(fd, b), NULL)) return -1; return real(fd, n, v, s, f); }
+int removexattr(const char *p, const char *n) { REAL(removexattr); char b[PATH_MAX]; if (hit("xattr", at_path(AT_FDCWD, p, b), NULL)) return -1; return real(p, n); }
+int lremovexattr(const char *p, const char *n) { REAL(lremovexattr); char b[PATH_MAX]; if (hit("xattr", at_path(AT_FDCWD, p, b), NULL)) return -1; return real(p, n); }
+int fremovexattr(int fd, const char *n) { REAL(fremovexattr); char b[PATH_MAX]; if (hit("xattr", fd_path(fd, b), NULL)) return -1; return real(fd, n); }
 
-ssize_t write(int fd, const void *buf, size_t n) { REAL(write); if (fd > 2 && fd != log_fd) { char b[PATH_MAX]; const char *p = fd_path(fd, b); if (under_root(p)) hit("write", p, NULL); } return real(fd, buf, n); }
-ssize_t pwrite(int fd, const void *buf, size_t n, off_t o) { REAL(pwrite); char b[PATH_MAX]; hit("write", fd_path(fd, b), NULL); return real(fd, buf, n, o); }
-ssize_t pwrite64(int fd, const void *buf, size_t n, off64_t o) { REAL(pwrite64); char b[PATH_MAX]; hit("write", fd_path(fd, b), NULL); return real(fd, buf, n, o); }
-ssize_t writev(int fd, const struct iovec *v, int c) { REAL(writev); if (fd > 2) { char b[PATH_MAX]; const char *p = fd_path(fd, b); if (under_root(p)) hit("write", p, NULL); } return real(fd, v, c); }
-ssize_t copy_file_range(int fi, off64_t *oi, int fo, off64_t *oo, size_t n, unsigned int f) { REAL(copy_file_range); char b[PATH_MAX]; hit("write", fd_path(fo, b), NULL); return real(fi, oi, fo, oo, n, f); }
-ssize_t sendfile(int fo, int fi, off_t *o, size_t n) { static ssize_t (*real)(int, int, off_t *, size_t) = NULL; if (!real) real = dlsym(RTLD_NEXT, "sendfile"); char b[PATH_MAX]; hit("write", fd_path(fo, b), NULL); return real(fo, fi, o, n); }
-ssize_t sendfile64(int fo, int fi, off64_t *o, size_t n) { static ssize_t (*real)(int, int, off64_t *, size_t) = NULL; if (!real) real = dlsym(RTLD_NEXT, "sendfile64"); char b[PATH_MAX]; hit("write", fd_path(fo, b), NULL); return real(fo, fi, o, n); }
+ssize_t write(int fd, const void *buf, size_t n) { REAL(write); if (fd > 2 && fd != log_fd) { char b[PATH_MAX]; const char *p = fd_path(fd, b); if (under_root(p)) if (hit("write", p, NULL)) return -1; } return real(fd, buf, n); }
+ssize_t pwrite(int fd, const void *buf, size_t n, off_t o) { REAL(pwrite); char b[PATH_MAX]; if (hit("write", fd_path(fd, b), NULL)) return -1; return real(fd, buf, n, o); }
+ssize_t pwrite64(int fd, const void *buf, size_t n, off64_t o) { REAL(pwrite64); char b[PATH_MAX]; if (hit("write", fd_path(fd, b), NULL)) return -1; return real(fd, buf, n, o); }
+ssize_t writev(int fd, const struct iovec *v, int c) { REAL(writev); if (fd > 2) { char b[PATH_MAX]; const char *p = fd_path(fd, b); if (under_root(p)) if (hit("write", p, NULL)) return -1; } return real(fd, v, c); }
+ssize_t copy_file_range(int fi, off64_t *oi, int fo, off64_t *oo, size_t n, unsigned int f) { REAL(copy_file_range); char b[PATH_MAX]; if (hit("write", fd_path(fo, b), NULL)) return -1; return real(fi, oi, fo, oo, n, f); }
+ssize_t sendfile(int fo, int fi, off_t *o, size_t n) { static ssize_t (*real)(int, int, off_t *, size_t) = NULL; if (!real) real = dlsym(RTLD_NEXT, "sendfile"); char b[PATH_MAX]; if (hit("write", fd_path(fo, b), NULL)) return -1; return real(fo, fi, o, n); }
+ssize_t sendfile64(int fo, int fi, off64_t *o, size_t n) { static ssize_t (*real)(int, int, off64_t *, size_t) = NULL; if (!real) real = dlsym(RTLD_NEXT, "sendfile64"); char b[PATH_MAX]; if (hit("write", fd_path(fo, b), NULL)) return -1; return real(fo, fi, o, n); }
